@@ -55,17 +55,17 @@ var ErrBoom = errors.New("boom")
 // T is the general-purpose handler.
 type T struct{ L *Log }
 
-func (t *T) Add(a, b int) (int, error)    { t.L.Add("T.Add", a, b); return a + b, nil }
-func (t *T) Echo(s string) string         { t.L.Add("T.Echo", s); return s }
-func (t *T) Void()                        { t.L.Add("T.Void") }
-func (t *T) One(x int)                    { t.L.Add("T.One", x) }
-func (t *T) Fail(x int) error             { t.L.Add("T.Fail", x); return ErrBoom }
-func (t *T) Both(x int) (int, error)      { t.L.Add("T.Both", x); return x, ErrBoom }
-func (t *T) Boom(x int) (int, error)      { t.L.Add("T.Boom", x); panic("kaboom") }
-func (t *T) Struct(p Pt) (Pt, error)      { t.L.Add("T.Struct", p); return p, nil }
-func (t *T) Ptr(p *int) (*int, error)     { t.L.Add("T.Ptr", p); return p, nil }
-func (t *T) Flag(b bool) bool             { t.L.Add("T.Flag", b); return !b }
-func (t *T) List(xs []int) (int, error)   { t.L.Add("T.List", xs); return len(xs), nil }
+func (t *T) Add(a, b int) (int, error)  { t.L.Add("T.Add", a, b); return a + b, nil }
+func (t *T) Echo(s string) string       { t.L.Add("T.Echo", s); return s }
+func (t *T) Void()                      { t.L.Add("T.Void") }
+func (t *T) One(x int)                  { t.L.Add("T.One", x) }
+func (t *T) Fail(x int) error           { t.L.Add("T.Fail", x); return ErrBoom }
+func (t *T) Both(x int) (int, error)    { t.L.Add("T.Both", x); return x, ErrBoom }
+func (t *T) Boom(x int) (int, error)    { t.L.Add("T.Boom", x); panic("kaboom") }
+func (t *T) Struct(p Pt) (Pt, error)    { t.L.Add("T.Struct", p); return p, nil }
+func (t *T) Ptr(p *int) (*int, error)   { t.L.Add("T.Ptr", p); return p, nil }
+func (t *T) Flag(b bool) bool           { t.L.Add("T.Flag", b); return !b }
+func (t *T) List(xs []int) (int, error) { t.L.Add("T.List", xs); return len(xs), nil }
 func (t *T) Ctx(ctx context.Context, x int) int {
 	t.L.Add("T.Ctx", x)
 	return x + 1
@@ -96,6 +96,9 @@ type A struct{ L *Log }
 func (a *A) Foo(x int) int { a.L.Add("A.Foo", x); return 100 + x }
 func (a *A) Bar(x int) int { a.L.Add("A.Bar", x); return 200 + x }
 func (a *A) FooBar() int   { a.L.Add("A.FooBar"); return 300 }
+
+// BFoo makes ("A","BFoo") and ("AB","Foo") concatenate to the same string without a separator.
+func (a *A) BFoo() int { a.L.Add("A.BFoo"); return 500 }
 
 // Three has several positional params of different types: a mismatch can sit at any position.
 func (a *A) Three(s string, n int, b bool) int { a.L.Add("A.Three", s, n, b); return 400 + n }
@@ -142,6 +145,7 @@ var AMethods = []MethodDesc{
 	{Name: "Foo", Tag: "A.Foo", PTypes: []string{"int"}, Out: "val"},
 	{Name: "FooBar", Tag: "A.FooBar", PTypes: []string{}, Out: "val"},
 	{Name: "Three", Tag: "A.Three", PTypes: []string{"string", "int", "bool"}, Out: "val"},
+	{Name: "BFoo", Tag: "A.BFoo", PTypes: []string{}, Out: "val"},
 }
 
 var BMethods = []MethodDesc{
